@@ -38,14 +38,15 @@ ASSUMPTIONS = [
 EXPECTED_PROBES = ["F2", "F4", "winner_changed_by_fault", "all_fits_failed", "exact_tie_in_sort_key", "bound_active", "decoy_fit_before", "constraint_checked"]
 
 PLAN = {
-    "quick": {"workloads": 48, "variants": 150, "wall_budget": 240.0, "min_variants": 10, "wall_limit": 2400.0, "per_job_limit": 1200.0},
+    "quick": {"workloads": 40, "variants": 150, "wall_budget": 240.0, "min_variants": 10, "wall_limit": 2400.0, "per_job_limit": 1200.0,
+              "determinism_jobs": 2, "determinism_variants": 5},
     "thorough": {"workloads": 640, "variants": 1200, "wall_budget": 1500.0, "min_variants": 30, "wall_limit": 10 * 3600.0, "per_job_limit": 3600.0},
 }
 
 
 def variants_for(wl, tier):
     # measured: 'auto'/'auto' workloads (36 fits per run) 519 ms per run, explicit lists 39 ms per run
-    n = 60 if wl["kwargs"].get("method") == "auto" and wl["kwargs"].get("weight") == "auto" else 300
+    n = 40 if wl["kwargs"].get("method") == "auto" and wl["kwargs"].get("weight") == "auto" else 300
     return n if tier == "quick" else n * 6
 
 
@@ -79,7 +80,7 @@ def draw_config(rng, wl, tier):
         "faults": [], "dur_scale": 1.0, "fail": [], "shared_memory": rng.random() < 0.12,
         "callbacks": rng.choice([0, 1]), "extra_kwargs": None,
         # history fault: an earlier fit of the same topology with other flags/limits in the same process
-        "decoy": rng.choice(["free", "other_fixed"]) if rng.random() < 0.1 else None,
+        "decoy": rng.choice(["free", "other_fixed"]) if rng.random() < 0.06 else None,
     }
     swarm = rng.random()
     if swarm > 0.3:
@@ -236,7 +237,11 @@ def _evaluate_after_decoy(args):
 
 
 def evaluate(wl, cfg, dec, ctx):
+    if cfg.get("decoy") and ctx.extra.get("decoys", 0) >= 2:
+        cfg = dict(cfg)
+        cfg["decoy"] = None  # at most two uncached history-fault runs per workload
     if cfg.get("decoy"):
+        ctx.extra["decoys"] = ctx.extra.get("decoys", 0) + 1
         # A run with a history fault executes in its own forked process (what the decoy leaves behind
         # must not reach later runs of this job) and with an empty task cache (results cached by earlier,
         # clean runs must not hide what the decoy did to this one).
